@@ -69,7 +69,7 @@ def run(ctx, out):
                 "outside the source, dangling (top level and deep), two-link cycles, self links and links to an ancestor; "
                 "-r -L with both drivers; also link OPERANDS (to file / directory, chains, absolute, dangling, cyclic; alone, among "
                 "several sources, onto a new name); a -L copy over the result of an earlier plain copy (links, dangling links, stale files "
-                "where directories must appear); link targets (directories, files, chains; also as operand) on ANOTHER filesystem (/dev/shm); an errno at every readlink of a resolvable tree (exit 0 must still mean: no links); "
+                "where directories must appear); three operands with a dangling / cyclic / self link inside the first, second or third; link targets (directories, files, chains; also as operand) on ANOTHER filesystem (/dev/shm); an errno at every readlink of a resolvable tree (exit 0 must still mean: no links); "
                 "destination compared with an independent resolver (os.stat/os.listdir following links) "
                 "and the Gallina walk on the resolved tree; non-trivial = tree contains a link; distinct = (link mix, driver, k)")
     d0 = ctx.work.fresh("c13")
@@ -337,6 +337,38 @@ def run(ctx, out):
                     shutil.rmtree(d, ignore_errors=True)
         finally:
             shutil.rmtree(ext, ignore_errors=True)
+    # several operands, a dangling or cyclic link INSIDE one of them, at every position: the run exits non-zero whichever
+    # operand holds it (what a later, clean operand returns says nothing about an earlier one)
+    for driver in ("parfile", "parblock"):
+        for bad in ("dangling", "cycle", "self"):
+            for pos in (0, 1, 2):
+                k += 1
+                d = os.path.join(d0, "mo%d" % k)
+                ops = []
+                for i in range(3):
+                    o = os.path.join(d, "op%d" % i)
+                    os.makedirs(os.path.join(o, "sub"))
+                    open(os.path.join(o, "f%d" % i), "wb").write(b"file %d" % i)
+                    open(os.path.join(o, "sub", "g"), "wb").write(b"g")
+                    os.symlink("f%d" % i, os.path.join(o, "goodlink"))
+                    ops.append("op%d" % i)
+                o = os.path.join(d, "op%d" % pos, "sub")
+                if bad == "dangling":
+                    os.symlink("nowhere", os.path.join(o, "broken"))
+                elif bad == "cycle":
+                    os.symlink("c2", os.path.join(o, "c1"))
+                    os.symlink("c1", os.path.join(o, "c2"))
+                else:
+                    os.symlink("me", os.path.join(o, "me"))
+                os.mkdir(os.path.join(d, "dst"))
+                argv = [ctx.bins["xcp"], "-r", "-L", "--driver", driver, "-w", str(rng.choice([1, 2, 4]))] + ops + ["dst"]
+                r = xcp.run_plain(argv, d)
+                out.case(("bad-link-in-one-operand", driver, bad, pos), True)
+                out.count("bad_link_in_one_of_several_operands")
+                if r.exit == 0:
+                    out.violation("-L with a %s link inside operand %d of 3 exited 0 (the link is simply absent from the destination)" % (bad, pos + 1),
+                                  dict(argv=argv[1:], exit=r.exit, stderr=r.stderr[-200:]))
+                shutil.rmtree(d, ignore_errors=True)
     if ctx.model_ok:
         models = treecase.model_walk([(False, True, [], [], b[1]) for b in batch])
         for (rep, tenc, bad), m in zip(batch, models):
